@@ -144,6 +144,47 @@ def r_inverse(ctx: Ctx, model, tr):
                nontrivial_key=("root", name), sample={"rule": "M-inverse", "model": name, "obligation": "numer(loading(p)-L)[p:=pressure(L)] == 0"})
 
 
+def r_branch(ctx: Ctx, model, tr):
+    """which root: both roots of the quadratic satisfy M-inverse; the returned one must be the pressure the loading came from.
+    Exact evaluation (rational arithmetic, radicals simplified by sympy) of pressure(loading(p)) at grid points of the
+    validity domain: a point where it differs from p is a counterexample computed from the source formula."""
+    ctx.rule("M-branch [ALG, exact points]: for the quadratic-formula inverses pressure(loading(p)) == p at a grid of exact "
+             "rational points of the validity domain (root selection)")
+    import itertools
+    p = tr.sym("p")
+    R = sp.Rational
+    for name in QUADRATIC:
+        ci, mc, pn = model_ctx(model, tr, name)
+        n = tr.method(mc, "loading", [p])
+        back = tr.method(mc, "pressure", [n])
+        syms = sorted(mc.params.values(), key=str)
+        grids = []
+        for sy in syms:
+            nm = str(sy)
+            if nm in ("N",):
+                grids.append([R(1, 10), R(1, 4)])          # BET/GAB-type: N*p < 1 on the grid below
+            elif nm == "K" and name == "GAB":
+                grids.append([R(1, 5), R(3, 4)])
+            else:
+                grids.append([R(1, 3), R(2), R(7, 2)])
+        npts = bad = 0
+        witness = None
+        for vals in itertools.islice(itertools.product(*grids), 0, 60 if ctx.tier == "thorough" else 16):
+            sub = dict(zip(syms, vals))
+            for pv in (R(1, 20), R(1, 2), R(9, 10)):
+                val = sp.nsimplify(sp.simplify(back.subs(sub).subs(p, pv)))
+                npts += 1
+                if sp.simplify(val - pv) != 0:
+                    bad += 1
+                    witness = witness or ({str(k): str(v) for k, v in sub.items()}, str(pv), str(val))
+        ctx.ob(bad == 0, Finding("C10.M-branch", ci.methods["pressure"].where, f"{name}|wrong-root",
+                                 f"{name}: pressure(loading(p)) != p at {bad} of {npts} exact points of the validity domain, e.g. parameters "
+                                 f"{witness[0] if witness else ''}, p = {witness[1] if witness else ''}: pressure() returns {witness[2] if witness else ''} "
+                                 "(the other root of the quadratic)", {"witness": witness}),
+               nontrivial_key=("branch", name), sample={"rule": "M-branch", "model": name, "points": npts})
+        ctx.analysed[f"branch points {name}"] = npts
+
+
 def r_numinv(ctx: Ctx, model, tr):
     ctx.rule("M-numinv: numerical inverse protocol (residual = forward(x) - target; success checked -> CalculationError; "
              "returns res.x; stateless starting point)")
@@ -227,6 +268,7 @@ def run(ctx: Ctx):
     ctx.assume("scipy.optimize results: .success is truthful, .x belongs to the same result")
     lists = r_registry(ctx, model, tr)
     r_inverse(ctx, model, tr)
+    r_branch(ctx, model, tr)
     r_numinv(ctx, model, tr)
     r_zero_henry_mono(ctx, model, tr, lists)
     ctx.analysed["models"] = lists["_MODELS"]
